@@ -42,6 +42,24 @@ chk('C17',
     'Trusted: vf/refmodel.py. Texts on which two admissible scanning policies disagree are only checked for faults.',
     'sanitizer build + reference-model and invariant monitors over operation histories', 'DESIGN.md 4 C17')
 
+chk('C05',
+    'Runtime monitoring with a differential oracle: every generated input (bracket-decision matrix, chains, all token '
+    'kinds, random trees) is parsed, printed by the real generator in MATH and ASCII, re-parsed by the real parser, and '
+    'the two tree dumps are compared in Python (with an independent copy of the Greek transliteration table) and by the '
+    'library operator==; ConvertTo chains must preserve the tree and be stable.',
+    'Trusted: the tree comparison and transliteration table in vf/p05.py / vf/rsgen.py. Inputs are produced by the '
+    'grammar-aware renderer, so coverage of "all parseable expressions" is what that generator reaches.',
+    'sanitizer build + print/parse round-trip monitor (differential) over generated expressions', 'DESIGN.md 4 C05')
+
+chk('C06',
+    'Runtime monitoring with a reference model: abstract trees are rendered by an independent printer that encodes the '
+    'documented precedence/associativity/bracket rules and records the span of every node; the real parser must '
+    'return exactly that tree with exactly those ranges, and FindMinimalNode must agree with the reference on random '
+    'cursor ranges. The constructor-pair matrix and associativity chains are enumerated, deep trees are random.',
+    'Trusted: the renderer in vf/rsgen.py as the statement of the grammar. Multiply-parenthesised nodes may report '
+    'either the innermost or the outermost pair.',
+    'sanitizer build + reference-model monitor (grammar-aware renderer with spans) over generated expressions', 'DESIGN.md 4 C06')
+
 for _p in ['C01', 'C02', 'C03', 'C04', 'C05', 'C06', 'C07', 'C08', 'C09', 'C10', 'C11', 'C12', 'C13', 'C15', 'C16',
            'C17', 'C18', 'C19']:
     if _p not in CHECKS:
